@@ -26,6 +26,9 @@ type PESpec struct {
 	Trailing int         `json:"trailing"`
 	Fill     uint64      `json:"fill"`
 	Aligned  int         `json:"aligned,omitempty"` // a boundary of the hashed ranges was moved onto a multiple of this
+	// StaleVA: the certificate-table directory entry of the unsigned image has Size 0 but an address left over from an
+	// earlier life of the file (a stripped signature): still "no certificate table"
+	StaleVA uint32 `json:"stale_va,omitempty"`
 }
 
 // ImgSpec names an image inside a trace.
@@ -99,6 +102,9 @@ func genPESpec(r *R) *PESpec {
 	}
 	if r.Chance(1, 5) {
 		alignPESpec(r, s)
+	}
+	if sr := r.Fork("stale"); sr.Chance(1, 10) {
+		s.StaleVA = uint32(Pick(sr, []int{8, 0x200, 0x1000, 0x7ff8, 0xfffffff8}))
 	}
 	return s
 }
@@ -210,6 +216,9 @@ func buildPE(s *PESpec) []byte {
 	dd4 := opt + optBase + 4*8
 	for i := 0; i < 8; i++ {
 		b[dd4+i] = 0
+	}
+	if s.StaleVA != 0 {
+		binary.LittleEndian.PutUint32(b[dd4:], s.StaleVA)
 	}
 	// section table
 	for i, sec := range s.Secs {
